@@ -67,6 +67,8 @@ def op_strategy(depth=1):
         st.tuples(ang, st.sampled_from(["x", "y", "z"])).map(lambda t: T("rotate", *t)),
         ang.map(lambda a: T("rotate", a)),
         st.lists(f, min_size=1, max_size=3).map(lambda l: T("scale", *l)),
+        # two EQUAL factors: still the two-argument form (Z untouched)
+        f.map(lambda x: T("scale", x, x)),
         nv.map(lambda v: T("reflect", v)),
         st.sampled_from(["xy", "yz", "zx"]).map(lambda p: T("mirror", p)),
         st.tuples(c, c, c).map(lambda t: T("set_pivot", list(t))),
@@ -99,7 +101,7 @@ def op_strategy(depth=1):
     inner = op_strategy(depth - 1)
     ctx = st.fixed_dictionaries({"op": st.just("tctx"),
                                  "body": st.lists(inner, max_size=4),
-                                 "raise": st.booleans()})
+                                 "raise": st.sampled_from([False, False, True, "base"])})
     return st.one_of(tr, tr, mv, mv, mv, ctx)
 
 
@@ -148,8 +150,8 @@ class Runner:
                 with g.current_transform():
                     self.run(op["body"])
                     if op["raise"]:
-                        raise hist._Boom()
-            except hist._Boom:
+                        raise hist.boom(op["raise"])
+            except (hist._Boom, hist._BoomBase):
                 pass
             self.m = saved
             self.synced = False
